@@ -32,6 +32,18 @@ def main():  # noqa
         chk.machinery_violation('model evaluation failed', str(e)[-3000:])
     except Exception:
         chk.machinery_violation('harness error', traceback.format_exc()[-3000:])
+    try:
+        import source_pins
+        broken = source_pins.check(chk, common.REPO)
+        if broken:
+            found = [str(rp) for _, rp, nf in chk.violations if not nf]
+            chk.report_violation(f'{pid}:source-pin:' + ','.join(b['name'] for b in broken),
+                                 {'no_failing_input': not found, 'broken': [f"{b['file']}:{b['name']} is modelled by {b['modelled_by']}" for b in broken],
+                                  'detail': broken, 'failing_inputs_found_by_the_exploration': found[:5]},
+                                 what=f'{pid}:source-pin: a literal the model was written from changed in the source: ' + '; '.join(
+                                     f"{b['name']} = {b['source_now_has']!r} (was {b['model_was_written_from']!r})" for b in broken)[:500])
+    except Exception:
+        chk.machinery_violation('harness error', traceback.format_exc()[-3000:])
     chk.gate_violation_if_needed()
     rc = chk.finish(level='proof', trusted_base=getattr(mod, 'TRUSTED_BASE', []) + common_trusted(),
                     assumptions=getattr(mod, 'ASSUMPTIONS', []))
